@@ -1202,6 +1202,13 @@ func (v *view) oracleC08() {
 	okN := v.responsesProduced()
 	if t.Err.IsNil() {
 		v.s.stats.Probes["c08-single-success"]++
+		for _, sd := range v.hSend {
+			// a response that cannot be put on the wire is no response: unless the
+			// handler was told so (and then did something about it), not success
+			if sd.Msg != nil && sd.Msg.Kind == 4 && v.r.Transport != TInproc && sd.Err.IsNil() && v.mayHaveProduced() == 1 {
+				v.fail("C08", "success-although-response-unencodable", "caller got success although the handler's only response (tag %d) cannot be encoded and the handler was not told", sd.Msg.Tag)
+			}
+		}
 		switch {
 		case v.hReturn == nil || v.hReturn.Seq > t.RSeq:
 			// covered by C02
